@@ -27,6 +27,7 @@ func init() {
 			Trusted:     commonTrusted,
 		},
 		Mutants: []Mutant{
+			{Name: "LetGlobal stops below a bottom scope without variables (original defect)", File: "eval.go", Old: "\t// walk up to the top-most scope\n\tfor sc.parent != nil {", New: "\t// walk up to the top-most scope\n\tfor sc.parent != nil && sc.parent.variables != nil {", Rule: "C18.top"},
 			{Name: "LetGlobal rebinds a shadowing local instead (agent seed C18/2)", File: "eval.go", Old: "func (state *Runtime) LetGlobal(name string, val interface{}) {\n", New: "func (state *Runtime) LetGlobal(name string, val interface{}) {\n\tif state.setValue(name, reflect.ValueOf(val)) == nil {\n\t\treturn\n\t}\n", Rule: "C18.top"},
 			{Name: "SetOrLet drops Set's error again (original defect)", File: "eval.go", Old: "\tif err := state.Set(name, val); err != nil {\n\t\tstate.Let(name, val)\n\t}", New: "\t_, err := state.resolve(name)\n\tif err != nil {\n\t\tstate.Let(name, val)\n\t} else {\n\t\tstate.Set(name, val)\n\t}", Rule: "C18.shared"},
 			{Name: "Let stores into a nil map (original defect)", File: "eval.go", Old: "\tif state.scope.variables == nil {\n\t\t// the bottom scope holds the VarMap passed to Execute, which may be nil\n\t\tstate.scope.variables = make(VarMap)\n\t}\n\tstate.scope.variables[name] = reflect.ValueOf(val)", New: "\tstate.scope.variables[name] = reflect.ValueOf(val)", Rule: "C18.top"},
@@ -280,25 +281,28 @@ func runC18(c *an.Ctx) {
 		}
 	}
 	if f := c.Fn("C18.top", "(*Runtime).LetGlobal"); f != nil {
-		ok := false
-		an.InspectOwn(f, func(n ast.Node) bool {
-			fs, isFor := n.(*ast.ForStmt)
-			if !isFor || fs.Init != nil || fs.Post != nil {
-				return true
+		// decided on the paths: the name is stored into a scope that is known to have no parent (the
+		// outermost one), whatever map that scope holds — stopping below a bottom scope without variables
+		// (Execute was given a nil VarMap) would bind the "global" in a scope that ends with the current body
+		winfo := f.Info()
+		ok, nStore := true, 0
+		wx := p.NewExplorer(f, an.Hooks{PreAssign: func(x *an.Explorer, lhs, rhs ast.Expr, stmt ast.Node, st *an.State) {
+			ix, isIx := an.Unparen(lhs).(*ast.IndexExpr)
+			if !isIx || p.FieldKey(winfo, ix.X) != "scope.variables" {
+				return
 			}
-			cond := strings.ReplaceAll(an.Str(fs.Cond), " ", "")
-			adv := false
-			for _, st := range fs.Body.List {
-				if as, isAs := st.(*ast.AssignStmt); isAs && len(as.Rhs) == 1 && p.FieldKey(f.Info(), as.Rhs[0]) == "scope.parent" && an.Str(as.Lhs[0]) == an.Str(as.Rhs[0].(*ast.SelectorExpr).X) {
-					adv = true
-				}
+			nStore++
+			cursor := an.Str(ix.X.(*ast.SelectorExpr).X)
+			if !an.FactIs(st, cursor+".parent == nil", true) {
+				ok = false
 			}
-			if adv && strings.Contains(cond, ".parent!=nil") && strings.Contains(cond, ".parent.variables!=nil") {
-				ok = true
-			}
-			return true
-		})
-		c.Check(ok, "C18.top", "(*Runtime).LetGlobal/walk", f.Pos(), "LetGlobal walks to the outermost scope that has a variables map", "LetGlobal does not walk (in a loop) to the outermost scope that has a variables map")
+		}})
+		wx.Run(nil)
+		c.States += wx.Visited
+		if nStore == 0 || wx.Undecided != "" {
+			ok = false
+		}
+		c.Check(ok, "C18.top", "(*Runtime).LetGlobal/walk", f.Pos(), "LetGlobal stores into the scope that has no parent", "LetGlobal stores the name into a scope that is not known to be the outermost one (its parent is not known to be nil where the store happens): with a nil VarMap the global is bound in a scope that ends with the current body")
 		// every normal exit has stored into the scope the walk ended at, and LetGlobal binds nowhere else
 		finfo := f.Info()
 		delegates := p.CallsIn(f, "(*jet.Runtime).setValue", "(*jet.Runtime).Set", "(*jet.Runtime).Let", "(*jet.Runtime).SetOrLet")
